@@ -46,7 +46,9 @@ func (*c03) Decode(raw []byte) (any, error) { return decodeInto[C03Scenario](raw
 
 var c03Classes = []string{"before-data", "content-first", "in-headers", "part-header", "in-body", "before-closing", "in-terminator", "after-terminator"}
 var c03Replies = []refsmtpd.Action{{Code: 451, Text: "try later"}, {Code: 550, Text: "refused"}, {Kind: "drop"}, {Kind: "close-after", Code: 421, Text: "going down"}, {Code: 250, Text: "accepted"},
-	{Code: 250, Text: "accepted but the reply is lost", StallWhere: "start"}, {Code: 250, Text: "accepted but the reply is cut", StallWhere: "mid"}}
+	{Code: 250, Text: "accepted but the reply is lost", StallWhere: "start"}, {Code: 250, Text: "accepted but the reply is cut", StallWhere: "mid"},
+	// well-formed replies of the classes that mean neither yes nor no at that point
+	{Code: 354, Text: "go ahead"}, {Code: 150, Text: "hold on"}}
 
 func (p *c03) Gen(seed uint64, i int, tier string) (any, bool) {
 	n := 24000
